@@ -287,3 +287,80 @@ Proof.
   destruct ((b0 =? 255) && (b1 =? 254) && (b2 =? 0) && (b3 =? 0)); [apply (utf32_dec_strict_canonical _ _ _ H)|].
   destruct ((b0 =? 0) && (b1 =? 0) && (b2 =? 254) && (b3 =? 255)); apply (utf32_dec_strict_canonical _ _ _ H).
 Qed.
+
+(* ================= single-byte codecs given by a decoding table ================= *)
+
+Definition charmap_repr (tbl : list (option N)) (t : str) : bool :=
+  forallb (fun c => match find_index c tbl 0 with Some _ => true | None => false end) t.
+
+Lemma find_index_get c tbl : forall i b, find_index c tbl i = Some b -> i <= b /\ table_get tbl (b - i) = Some c.
+Proof.
+  induction tbl as [|[x|] r IH]; intros i b H; cbn [find_index] in H; [discriminate| |].
+  - destruct (x =? c) eqn:E.
+    + injection H as <-. apply N.eqb_eq in E. subst x. split; [lia|].
+      unfold table_get. replace (N.to_nat (i - i)) with 0%nat by lia. reflexivity.
+    + destruct (IH _ _ H) as [Hle Hg]. split; [lia|].
+      unfold table_get in *. replace (N.to_nat (b - i)) with (S (N.to_nat (b - (i + 1)))) by lia. exact Hg.
+  - destruct (IH _ _ H) as [Hle Hg]. split; [lia|].
+    unfold table_get in *. replace (N.to_nat (b - i)) with (S (N.to_nat (b - (i + 1)))) by lia. exact Hg.
+Qed.
+
+Theorem charmap_roundtrip tbl t : charmap_repr tbl t = true ->
+  exists b, (forall p, charmap_enc tbl p t = COk b) /\ (forall p, charmap_dec tbl p b = COk t).
+Proof.
+  induction t as [|c t IH]; intros H.
+  - exists []. split; reflexivity.
+  - unfold charmap_repr in H. cbn [forallb] in H. apply andb_true_iff in H. destruct H as [Hc Ht].
+    destruct (IH Ht) as (b & He & Hd).
+    destruct (find_index c tbl 0) as [x|] eqn:E; [|discriminate].
+    exists (x :: b). split; intros p.
+    + cbn [charmap_enc]. rewrite E, He. reflexivity.
+    + cbn [charmap_dec]. destruct (find_index_get _ _ _ _ E) as [_ Hg]. rewrite N.sub_0_r in Hg.
+      rewrite Hg, Hd. reflexivity.
+Qed.
+
+Lemma charmap_enc_strict_any tbl s : forall b, charmap_enc tbl Strict s = COk b ->
+  charmap_repr tbl s = true /\ forall p, charmap_enc tbl p s = COk b.
+Proof.
+  induction s as [|c t IH]; intros b H; [split; [reflexivity|intros p; exact H]|]. cbn [charmap_enc] in *.
+  destruct (find_index c tbl 0) as [x|] eqn:E; [|discriminate].
+  destruct (cmap_ok _ _ _ H) as (b' & E' & ->). destruct (IH _ E') as [Hv Hp]. split.
+  - unfold charmap_repr in *. cbn [forallb]. rewrite E, Hv. reflexivity.
+  - intros p. rewrite (Hp p). reflexivity.
+Qed.
+
+(* every defined byte is the first byte of its character (decidable; computed for the generated tables) *)
+Definition table_inj (tbl : list (option N)) : bool :=
+  forallb (fun i => match table_get tbl i with
+                    | Some c => match find_index c tbl 0 with Some j => j =? i | None => false end
+                    | None => true
+                    end) (map N.of_nat (seq 0 (length tbl))).
+
+Lemma table_get_range tbl b c : table_get tbl b = Some c -> In b (map N.of_nat (seq 0 (length tbl))).
+Proof.
+  unfold table_get. intros H. rewrite <- (N2Nat.id b). apply in_map. apply in_seq.
+  split; [lia|]. cbn. destruct (Nat.lt_ge_cases (N.to_nat b) (length tbl)) as [Hl|Hl]; [exact Hl|].
+  rewrite nth_overflow in H by exact Hl. discriminate.
+Qed.
+
+Theorem charmap_dec_strict_canonical tbl : forall b t,
+  charmap_dec tbl Strict b = COk t ->
+  (forall p, charmap_dec tbl p b = COk t) /\
+  (table_inj tbl = true -> charmap_repr tbl t = true /\ charmap_enc tbl Strict t = COk b).
+Proof.
+  induction b as [|x r IH]; intros t H.
+  - injection H as <-. split; [reflexivity|split; reflexivity].
+  - cbn [charmap_dec] in H. destruct (table_get tbl x) as [c|] eqn:E; [|discriminate].
+    destruct (cmap_ok _ _ _ H) as (t' & E' & ->). destruct (IH _ E') as [Hp Hc]. split.
+    + intros p. cbn [charmap_dec]. rewrite E, (Hp p). reflexivity.
+    + intros Hi. destruct (Hc Hi) as [Hv He].
+      pose proof (proj1 (forallb_forall _ _) Hi x (table_get_range _ _ _ E)) as Hx. cbv beta in Hx. rewrite E in Hx.
+      destruct (find_index c tbl 0) as [j|] eqn:Ej; [|discriminate]. apply N.eqb_eq in Hx. subst j. split.
+      * unfold charmap_repr in *. cbn [forallb]. rewrite Ej, Hv. reflexivity.
+      * cbn [charmap_enc]. rewrite Ej, He. reflexivity.
+Qed.
+
+Lemma cp1252_table_inj : table_inj OV.Gen.C16_Charmaps.cp1252_table = true.
+Proof. vm_compute. reflexivity. Qed.
+Lemma koi8r_table_inj : table_inj OV.Gen.C16_Charmaps.koi8r_table = true.
+Proof. vm_compute. reflexivity. Qed.
